@@ -45,6 +45,10 @@ pub struct CCfg {
     /// their threads unwind from a panic
     #[serde(default)]
     pub unwinding_drops: bool,
+    /// the consumer behaves like hyper: it samples `is_end_stream()` before each poll (needs
+    /// `sample`) and, once that is true, takes it as the end and does not poll again
+    #[serde(default)]
+    pub stop_at_eos: bool,
 }
 
 #[derive(Clone, Debug, Serialize, Deserialize)]
@@ -572,7 +576,12 @@ fn consumer(sched: Arc<Sched>, body: SBody, case: SchedCase, out: Arc<Mutex<Trac
             (0, None, false)
         };
         let mut cx = Context::from_waker(&waker);
-        let r = crate::panics::guard(|| body.as_mut().poll_frame(&mut cx));
+        let r = if case.cfg.stop_at_eos && case.cfg.sample && eos && !terminal {
+            // a consumer that trusts is_end_stream(): this is the end, it does not poll
+            Ok(Poll::Ready(None))
+        } else {
+            crate::panics::guard(|| body.as_mut().poll_frame(&mut cx))
+        };
         let mut st = sched.m.lock().unwrap();
         if st.writer_gone && !terminal {
             st.polls_after_gone += 1;
@@ -952,8 +961,11 @@ pub fn programs(max_len: usize, with_abort: bool) -> Vec<Vec<POp>> {
 pub fn configs() -> Vec<CCfg> {
     let mut v = configs_plain();
     // the same consumer (same waker, no spurious polls) with the drops happening during an unwind
-    v.push(CCfg { fresh_waker: false, spurious: 0, sample: false, extra_polls: 1, drop_after_polls: None, unwinding_drops: true });
-    v.push(CCfg { fresh_waker: true, spurious: 0, sample: false, extra_polls: 1, drop_after_polls: None, unwinding_drops: true });
+    v.push(CCfg { fresh_waker: false, spurious: 0, sample: false, extra_polls: 1, drop_after_polls: None, unwinding_drops: true, stop_at_eos: false });
+    v.push(CCfg { fresh_waker: true, spurious: 0, sample: false, extra_polls: 1, drop_after_polls: None, unwinding_drops: true, stop_at_eos: false });
+    // a consumer that stops polling once is_end_stream() is true (hyper)
+    v.push(CCfg { fresh_waker: false, spurious: 0, sample: true, extra_polls: 0, drop_after_polls: None, unwinding_drops: false, stop_at_eos: true });
+    v.push(CCfg { fresh_waker: true, spurious: 2, sample: true, extra_polls: 0, drop_after_polls: None, unwinding_drops: false, stop_at_eos: true });
     v
 }
 
@@ -969,6 +981,7 @@ fn configs_plain() -> Vec<CCfg> {
                     extra_polls: 1,
                     drop_after_polls: None,
                     unwinding_drops: false,
+                    stop_at_eos: false,
                 });
             }
         }
@@ -1014,6 +1027,7 @@ fn random_strategy(with_abort: bool) -> BoxedStrategy<SchedCase> {
                     extra_polls,
                     drop_after_polls,
                     unwinding_drops: dropsel % 3 == 1,
+                    stop_at_eos: sample && dropsel % 2 == 0,
                 },
                 choices,
             }
@@ -1024,7 +1038,7 @@ fn random_strategy(with_abort: bool) -> BoxedStrategy<SchedCase> {
 pub const META_C10: Meta = Meta {
     id: "C10",
     level: "exploration",
-    rule: "Schedule enumeration on the real chunker code through hook H1: producer programs of up to 4 operations (thorough 5, and all 6-operation programs; thorough also chunk size 3 with writes of 1, 2, 4 and 7 bytes) over {write(1), write(2), flush, wait-until-delivered} + drop (random programs also write_all of up to 300 bytes, i.e. hundreds of chunks), chunk size 2 (identity) and of up to 3 operations with the gzip writer (chunk size 6; every operation is several chunker writes), against a consumer that parks on Pending, with same/fresh waker per poll (wakes to superseded wakers are ignored), 0 or 2 spurious polls, with/without is_end_stream/size_hint sampling, writer / body dropped normally or while the thread unwinds from a panic; every schedule with <= 2 preemptions (thorough 3) is executed by stateless DFS (two real threads, exactly one runs, hand-over at lock acquisitions, wake() and operation boundaries); plus proptest over programs of <= 6 operations, chunk sizes {1,2,3,5,8}, writes of 1-17 bytes and random choice vectors (unbounded preemptions). Also programs that queue 1 MiB and more before the consumer's first poll (chunk 16-64 KiB). Oracle (history invariants): no quiescent state with the consumer parked and un-woken while data, end or abort is undelivered; everything flushed is received in order before a clean end; bounded polls after the writer is gone. Non-trivial = schedule in which the consumer parked at least once or an actor was preempted; distinct by (program, config, choice vector).",
+    rule: "Schedule enumeration on the real chunker code through hook H1: producer programs of up to 4 operations (thorough 5, and all 6-operation programs; thorough also chunk size 3 with writes of 1, 2, 4 and 7 bytes) over {write(1), write(2), flush, wait-until-delivered} + drop (random programs also write_all of up to 300 bytes, i.e. hundreds of chunks), chunk size 2 (identity) and of up to 3 operations with the gzip writer (chunk size 6; every operation is several chunker writes), against a consumer that parks on Pending, with same/fresh waker per poll (wakes to superseded wakers are ignored), 0 or 2 spurious polls, with/without is_end_stream/size_hint sampling, a consumer that stops polling once is_end_stream() is true, writer / body dropped normally or while the thread unwinds from a panic; every schedule with <= 2 preemptions (thorough 3) is executed by stateless DFS (two real threads, exactly one runs, hand-over at lock acquisitions, wake() and operation boundaries); plus proptest over programs of <= 6 operations, chunk sizes {1,2,3,5,8}, writes of 1-17 bytes and random choice vectors (unbounded preemptions). Also programs that queue 1 MiB and more before the consumer's first poll (chunk 16-64 KiB). Oracle (history invariants): no quiescent state with the consumer parked and un-woken while data, end or abort is undelivered; everything flushed is received in order before a clean end; bounded polls after the writer is gone. Non-trivial = schedule in which the consumer parked at least once or an actor was preempted; distinct by (program, config, choice vector).",
     assumptions: &[
         "interleavings are at lock / wake / operation granularity: complete for this code because every shared field sits behind the one instrumented mutex",
         "no weak-memory effects (all sharing goes through std::sync::Mutex)",
@@ -1060,7 +1074,7 @@ fn run_common(cx: &Cx, c11: bool) -> Acc {
                         gzip: None,
                         chunk: 2,
                         program: program.clone(),
-                        cfg: CCfg { fresh_waker: false, spurious: 0, sample: false, extra_polls: 0, drop_after_polls: Some(k), unwinding_drops },
+                        cfg: CCfg { fresh_waker: false, spurious: 0, sample: false, extra_polls: 0, drop_after_polls: Some(k), unwinding_drops, stop_at_eos: false },
                         choices: vec![],
                     });
                 }
@@ -1080,7 +1094,7 @@ fn run_common(cx: &Cx, c11: bool) -> Acc {
                 gzip: Some(1),
                 chunk: 6,
                 program: program.clone(),
-                cfg: CCfg { fresh_waker, spurious: if fresh_waker { 2 } else { 0 }, sample: false, extra_polls: 1, drop_after_polls: None, unwinding_drops: false },
+                cfg: CCfg { fresh_waker, spurious: if fresh_waker { 2 } else { 0 }, sample: false, extra_polls: 1, drop_after_polls: None, unwinding_drops: false, stop_at_eos: false },
                 choices: vec![],
             });
         }
@@ -1115,12 +1129,35 @@ fn run_common(cx: &Cx, c11: bool) -> Acc {
                         gzip: None,
                         chunk,
                         program: program.clone(),
-                        cfg: CCfg { fresh_waker, spurious: 0, sample: false, extra_polls: 1, drop_after_polls: None, unwinding_drops: false },
+                        cfg: CCfg { fresh_waker, spurious: 0, sample: false, extra_polls: 1, drop_after_polls: None, unwinding_drops: false, stop_at_eos: false },
                         choices: vec![],
                     });
                 }
             }
         }
+        // Dozens of chunks queued while the writer is still alive, a consumer that trusts
+        // is_end_stream(): the writer may be dropped while the consumer is in the middle of them.
+        let mut many: Vec<SchedCase> = Vec::new();
+        for n in [17u32, 20, 40] {
+            for program in [vec![POp::WriteAll(2 * n)], vec![POp::WriteAll(2 * n), POp::Write(1)]] {
+                for (fresh_waker, stop_at_eos) in [(false, true), (true, true), (false, false)] {
+                    many.push(SchedCase {
+                        gzip: None,
+                        chunk: 2,
+                        program: program.clone(),
+                        cfg: CCfg { fresh_waker, spurious: 0, sample: true, extra_polls: 0, drop_after_polls: None, unwinding_drops: false, stop_at_eos },
+                        choices: vec![],
+                    });
+                }
+            }
+        }
+        let mut a = par_units(cx, "sched-many-queued", &many, false, "17-40 chunks queued by one write_all with the writer alive, then the drop; consumer sampling is_end_stream() (trusting it or not); all schedules with <= 2 preemptions (capped)", |cx, base, acc| {
+            explore(cx, "sched-many-queued", base, 2, 8000, acc, false);
+        });
+        if let Some(p) = a.phases.last_mut() {
+            p["exhaustive"] = json!(false);
+        }
+        acc.merge(a);
         let mut a = par_units(cx, "sched-backlog", &units, false, "1 MiB and more written before the consumer's first poll (chunk 16-64 KiB), then small writes, flushes and the drop; all schedules with <= 1 preemption (capped)", |cx, base, acc| {
             explore(cx, "sched-backlog", base, 1, 400, acc, false);
         });
@@ -1210,7 +1247,7 @@ pub fn run_for_c12(cx: &Cx) -> Acc {
                 gzip: None,
                 chunk: 2,
                 program: program.clone(),
-                cfg: CCfg { fresh_waker, spurious: 1, sample: true, extra_polls: 1, drop_after_polls: None, unwinding_drops: false },
+                cfg: CCfg { fresh_waker, spurious: 1, sample: true, extra_polls: 1, drop_after_polls: None, unwinding_drops: false, stop_at_eos: false },
                 choices: vec![],
             });
         }
@@ -1263,7 +1300,7 @@ pub fn run_for_c20(cx: &Cx) -> Acc {
                 gzip,
                 chunk,
                 program: program.clone(),
-                cfg: CCfg { fresh_waker: false, spurious: 0, sample: false, extra_polls: 3, drop_after_polls: None, unwinding_drops: false },
+                cfg: CCfg { fresh_waker: false, spurious: 0, sample: false, extra_polls: 3, drop_after_polls: None, unwinding_drops: false, stop_at_eos: false },
                 choices: vec![],
             });
         }
